@@ -1,5 +1,6 @@
 import RbV.Gen.SrcFastq
 import RbV.Thm.GenSrcFasta
+import RbV.Lemmas.FastqBlankFirst
 /-!
 # The translated `bio::io::fastq` writer, reader, `Record::check` and `Records` iterator (`RbV/Gen/SrcFastq.lean`) against the
 mirror models (C11)
@@ -59,13 +60,7 @@ def srcTxt : Txt :=
   { trim := trimEndU, faHdr := faHeaderU,
     fqHdr := fun l => Rs.splitn2 Gen.SrcFastq.read_pat1 (trimEndU l.tail), trim_nil := rfl }
 
-/-- what the property's domain fixes about a header text: its first white-space byte, if any, is a blank -/
-def blankFirst : Bytes → Bool
-  | [] => true
-  | b :: r => if isWs b then b == 32 else blankFirst r
-
-/-- what the proofs use of the pattern: it matches the blank, does not match the line feed, and matches nothing that is not
-white space -/
+/-- what the proofs use of the pattern: it matches the blank and nothing that is not white space -/
 theorem pat_spec : Gen.SrcFastq.read_pat1 32 = true ∧ ∀ b, isWs b = false → Gen.SrcFastq.read_pat1 b = false := by
   refine ⟨by simp [Gen.SrcFastq.read_pat1], ?_⟩
   intro b hb
@@ -100,42 +95,6 @@ theorem srcTxt_agrees (l : Bytes) (h : NoUws l) (hb : blankFirst (trimEnd l.tail
   show Rs.splitn2 Gen.SrcFastq.read_pat1 (trimEndU l.tail) = fqHeader l
   rw [trimEndU_eq _ h.tail, splitn2_blankFirst _ hb]
   rfl
-
-theorem pat_lf : Gen.SrcFastq.read_pat1 10 = false := by simp [Gen.SrcFastq.read_pat1]
-
-/-- the only white-space bytes are line feeds and blanks (no tab, CR, VT, FF: e.g. descriptions whose words are separated by
-single blanks) -/
-def OnlyLfBlank (f : Bytes) : Prop := ∀ b ∈ f, isWs b = true → b = 10 ∨ b = 32
-
-instance (f : Bytes) : Decidable (OnlyLfBlank f) := by unfold OnlyLfBlank; infer_instance
-
-theorem splitn2_congr (p q : Nat → Bool) (s : Bytes) (h : ∀ b ∈ s, p b = q b) : Rs.splitn2 p s = Fastx.splitn2 q s := by
-  induction s with
-  | nil => rfl
-  | cons b r ih =>
-    have hb := h b (by simp)
-    have := ih (fun x hx => h x (by simp [hx]))
-    simp only [Rs.splitn2, Fastx.splitn2, Prod.mk.injEq] at this ⊢
-    cases hq : q b <;> simp [List.takeWhile, List.dropWhile, hb, hq, this.1, this.2]
-
-/-- … on such lines, too, the source's text functions are those of the list models (whatever the pattern does with the
-other white-space characters) -/
-theorem srcTxt_agrees_lfBlank (l : Bytes) (h : NoUws l) (hb : OnlyLfBlank l) : srcTxt.AgreesOn l := by
-  refine ⟨trimEndU_eq l h, faHeaderU_eq l h, ?_⟩
-  show Rs.splitn2 Gen.SrcFastq.read_pat1 (trimEndU l.tail) = fqHeader l
-  rw [trimEndU_eq _ h.tail]
-  apply splitn2_congr
-  intro b hbm
-  have hbl : b ∈ l := List.mem_of_mem_tail (trimEnd_subset _ b hbm)
-  cases hw : isWs b with
-  | true =>
-    rcases hb b hbl hw with rfl | rfl
-    · simpa using pat_lf
-    · simpa using pat_spec.1
-  | false =>
-    rw [pat_spec.2 b hw]
-    simp only [isWs, Bool.or_eq_false_iff, beq_eq_false_iff_ne] at hw
-    simp; omega
 
 /-- the first `read_line` of a round of the sequence loop, then the loop -/
 def seqFrom (c : Nat) (sched : Nat → Nat) (T : Txt) (id : Bytes) (desc : Option Bytes) (qual : Bytes) (gas : Nat) (rd : St)
